@@ -591,7 +591,8 @@ def oracle(case, obs):
     if ending == "crashed" or ending == "returned":
         k = min(n, len(expect)) - 1
         why = expect[k][1] if 0 <= k < len(expect) and expect[k][0] != "deliver" else "wellformed-frame"
-        bad.append((f"{mode}:poll-loop-ended-by-{obs.get('_exc') or ending}:{why}", f"_poll ended with {obs.get('_exc') or ending} at message {n} ({frames[k][:60]!r}); the loop must continue or raise Bluesky0MQDecodeError"))
+        at = frames[k][:60] if frames and 0 <= k < len(frames) else b"<before the first message>"
+        bad.append((f"{mode}:poll-loop-ended-by-{obs.get('_exc') or ending}:{why}", f"_poll ended with {obs.get('_exc') or ending} at message {n} ({at!r}); the loop must continue or raise Bluesky0MQDecodeError"))
         return bad
     if ending == "decodeError":
         k = n - 1
